@@ -4,9 +4,10 @@ Property theorems only; helper lemmas are in `Proofs/C01.lean`.
 -/
 import MahfModel.Proofs.C01
 namespace MahfModel.Props.C01
-open MahfModel.Registry
+open MahfModel.Registry MahfModel.Borrow
 
-/-- Refinement, one step, for each of the 30 operation kinds (incl. every entry combinator): from a
+/-- Refinement, one step, for each of the 32 operation kinds (incl. every entry combinator and value access
+next to a live guard on the same type): from a
 registry that has its own map and no live guard, the code-shaped model (association lists, `RefCell`
 flags, `find` + index arithmetic) keeps that invariant, answers what the stack of partial maps answers,
 and moves to the abstraction of the stack's next state. -/
@@ -30,6 +31,50 @@ theorem history_refines_from (r : Reg) (ops : List ROp) (h : Inv r) :
 /-- Every finite history from `StateRegistry::new()` returns exactly what a stack of maps returns. -/
 theorem history_refines (ops : List ROp) : (run new ops).2 = (specRun [PMap.empty] ops).2 :=
   (history_refines_from new ops inv_new).2.1
+
+/-- Refinement for the State-level scope helper too: a statement is a registry operation or
+`with_inner_state(|s| { body; ok/err })` with any nesting; whether the closure returns `Ok` or `Err` the
+scope is popped, the outer values are as the body left them and (on `Ok`) the child's map is returned. -/
+theorem stmt_refines (s : Stmt) (r : Reg) (h : Inv r) (hf : Stmt.holdFree s) :
+    Inv (execStmt r s).1 ∧ (execStmt r s).2 = (specExecStmt (abs r) s).2 ∧
+      abs (execStmt r s).1 = (specExecStmt (abs r) s).1 :=
+  execStmt_refines s r h hf
+
+/-- … and for every finite history of such statements from `State::new()` (what the driver replays). -/
+theorem history_refines_stmts (p : Prog) (hf : Prog.holdFree p) :
+    (execProg new p).2 = (specExecProg [PMap.empty] p).2 :=
+  (execProg_refines p new inv_new hf).2.1
+
+/-- A conflicting value access while a guard on the innermost holder is alive is refused and never
+redirected to the value shadowed further out: nothing changes, in particular no outer scope. -/
+theorem guarded_access_refused (r : Reg) (k : Key) (v : Nat) (i : Nat) (h : Inv r) (hf : find r k = some i) :
+    step r (.gset k v) = (r, .none) ∧ step r (.gget k) = (r, .err .conflictImm) := by
+  obtain ⟨⟨_, a2, _⟩, ⟨_, b2, _⟩⟩ := step_guarded r k v h
+  obtain ⟨c, hc⟩ := find_cell r k i hf
+  have hl := lookup_found r k i c hf hc
+  simp only [specStep, hl] at a2 b2
+  have hq := h.2
+  obtain ⟨hr, hw⟩ := quiet_cell r i k c hq hc
+  have e1 : (step r (.gset k v)).1 = r := by
+    have hb : tryBorrow r k = .ok (modifyAt r i (·.modify k (fun _ => { c with readers := c.readers + 1 })), i) := by
+      simp [tryBorrow, hf, hc, Cell.tryBorrow, hw]
+    have hi := find_lt r k i hf
+    have hc' := hc; simp only [cellAt] at hc'
+    have hf1 : find (modifyAt r i (·.modify k (fun _ => { c with readers := c.readers + 1 }))) k = some i := by
+      rw [show find (modifyAt r i (·.modify k (fun _ => { c with readers := c.readers + 1 }))) k = find r k from
+        findIdx_modifyAt _ r i _ (fun s => Scope.has_modify s k _ k)]; exact hf
+    have hc1 : cellAt (modifyAt r i (·.modify k (fun _ => { c with readers := c.readers + 1 }))) i k
+        = some { c with readers := c.readers + 1 } := by
+      rw [cellAt_modifyAt r i _ k hi, Scope.get?_modify]; simp [hc']
+    have hs : setValue (modifyAt r i (·.modify k (fun _ => { c with readers := c.readers + 1 }))) k v
+        = (modifyAt r i (·.modify k (fun _ => { c with readers := c.readers + 1 })), none) := by
+      simp [setValue, tryBorrowMut, hf1, hc1, Cell.tryBorrowMut]
+    simp only [step, hb, hs]
+    exact modify_back r i k c _ false hc (release_shared_back c)
+  have e2 : (step r (.gget k)).1 = r := by
+    simp only [step, tryBorrowMut_quiet r k i c hq hf hc]
+    exact modify_back r i k c _ true hc (release_excl_back c hw)
+  exact ⟨Prod.ext e1 a2, Prod.ext e2 b2⟩
 
 /-- Lookups, removals and in-place entry access resolve to the innermost scope holding the type: `find`
 returns the first scope whose own map has it, and every accessor reads / removes / writes THAT cell. -/
@@ -162,5 +207,8 @@ example : find [[(.ty 1, fresh 2)], [(.ty 0, fresh 1)]] (.ty 2) = none := by dec
 example : nodupKeys [[(.ty 1, fresh 2), (.ty 0, fresh 4)], [(.ty 0, fresh 1)]] := by
   simp [nodupKeys, Scope.nodupKeys, Scope.keys]
 example : (ROp.entModOrIns (.ty 0) 1 2).isLocal = true ∧ (ROp.parIns 0 (.ty 0) 2).isLocal = true := by decide
+
+example : Prog.holdFree (.cons (.op (.ins (.ty 0) 1)) (.cons (.inner false (.cons (.op (.gset (.ty 0) 2))
+    (.cons (.inner true .nil) .nil))) .nil)) := by simp [Prog.holdFree, Stmt.holdFree]
 
 end MahfModel.Props.C01
